@@ -1,2 +1,564 @@
-/- C14 (statements are being added) -/
+/-
+  C14 — from_native(value) denotes exactly that value.
+-/
 import D42.Model.Subst
+import D42.Model.Gen
+import D42.Props.C02
+
+namespace D42
+
+mutual
+/-- the values `from_native` supports: None, bool, int, float, str, bytes, version-4 UUID, datetime,
+    date, lists and dicts of those (no `...` key) -/
+def Plain : PyVal → Prop
+  | .none => True
+  | .bool _ => True
+  | .int _ => True
+  | .float _ => True
+  | .str _ => True
+  | .bytes _ => True
+  | .uuid _ ver => ver = 4
+  | .datetime _ => True
+  | .date _ => True
+  | .list xs => PlainL xs
+  | .dict kvs => PlainKV kvs
+  | .ellipsis => False
+  | .other _ => False
+def PlainL : List PyVal → Prop
+  | [] => True
+  | x :: xs => Plain x ∧ PlainL xs
+def PlainKV : List (PyKey × PyVal) → Prop
+  | [] => True
+  | (k, v) :: r => k ≠ PyKey.ellipsis ∧ Plain v ∧ PlainKV r
+end
+
+mutual
+/-- no NaN anywhere (finding K6: `schema.float(nan)` rejects its own value) -/
+def NoNaN : PyVal → Prop
+  | .float .nan => False
+  | .list xs => NoNaNL xs
+  | .dict kvs => NoNaNKV kvs
+  | _ => True
+def NoNaNL : List PyVal → Prop
+  | [] => True
+  | x :: xs => NoNaN x ∧ NoNaNL xs
+def NoNaNKV : List (PyKey × PyVal) → Prop
+  | [] => True
+  | (_, v) :: r => NoNaN v ∧ NoNaNKV r
+end
+
+mutual
+/-- python dicts have distinct keys (the encoder guarantees it; a model `List (PyKey × PyVal)` need not) -/
+def DistinctKeys : PyVal → Prop
+  | .list xs => DistinctKeysL xs
+  | .dict kvs => (kvs.map (·.1)).Nodup ∧ DistinctKeysKV kvs
+  | _ => True
+def DistinctKeysL : List PyVal → Prop
+  | [] => True
+  | x :: xs => DistinctKeys x ∧ DistinctKeysL xs
+def DistinctKeysKV : List (PyKey × PyVal) → Prop
+  | [] => True
+  | (_, v) :: r => DistinctKeys v ∧ DistinctKeysKV r
+end
+
+/-! ### inversion lemmas -/
+
+theorem fromNativeList_cons_ok (x : PyVal) (xs : List PyVal) (es : List Schema) :
+    fromNativeList (x :: xs) = .ok es ↔
+      ∃ a b, fromNative x = .ok a ∧ fromNativeList xs = .ok b ∧ es = a :: b := by
+  simp only [fromNativeList, bind, Except.bind, pure, Except.pure]
+  cases fromNative x with
+  | error e => simp
+  | ok a =>
+    cases fromNativeList xs with
+    | error e => simp
+    | ok b => simp [eq_comm]
+
+theorem fromNativeKVs_cons_ok (k : PyKey) (v : PyVal) (r : List (PyKey × PyVal)) (fs : List (PyKey × Bool × Schema)) :
+    fromNativeKVs ((k, v) :: r) = .ok fs ↔
+      ∃ a b, fromNative v = .ok a ∧ fromNativeKVs r = .ok b ∧ fs = (k, false, a) :: b := by
+  simp only [fromNativeKVs, bind, Except.bind, pure, Except.pure]
+  cases fromNative v with
+  | error e => simp
+  | ok a =>
+    cases fromNativeKVs r with
+    | error e => simp
+    | ok b => simp [eq_comm]
+
+theorem fromNative_list_ok (xs : List PyVal) (s : Schema) :
+    fromNative (.list xs) = .ok s ↔ ∃ es, fromNativeList xs = .ok es ∧ s = .listE false es false {} := by
+  simp only [fromNative, bind, Except.bind, pure, Except.pure]
+  cases fromNativeList xs with
+  | error e => simp
+  | ok b => simp [eq_comm]
+
+theorem fromNative_dict_ok (kvs : List (PyKey × PyVal)) (s : Schema) :
+    fromNative (.dict kvs) = .ok s ↔
+      kvs.any (fun kv => kv.1 == PyKey.ellipsis) = false ∧
+      ∃ fs, fromNativeKVs kvs = .ok fs ∧ s = .dict (some fs) none := by
+  simp only [fromNative, bind, Except.bind, pure, Except.pure]
+  cases h : kvs.any (fun kv => kv.1 == PyKey.ellipsis) with
+  | true => simp
+  | false =>
+    cases fromNativeKVs kvs with
+    | error e => simp
+    | ok b => simp [eq_comm]
+
+
+theorem plainKV_noEll : ∀ (kvs : List (PyKey × PyVal)), PlainKV kvs →
+    kvs.any (fun kv => kv.1 == PyKey.ellipsis) = false
+  | [], _ => rfl
+  | (k, v) :: r, h => by
+    simp only [PlainKV] at h
+    simp [h.1, plainKV_noEll r h.2.2]
+
+/-! ### theorems to prove -/
+
+mutual
+theorem fromNative_total' : ∀ (v : PyVal), Plain v → ∃ s, fromNative v = .ok s
+  | .none, _ => by simp [fromNative]
+  | .bool _, _ => by simp [fromNative]
+  | .int _, _ => by simp [fromNative]
+  | .float _, _ => by simp [fromNative]
+  | .str _, _ => by simp [fromNative]
+  | .bytes _, _ => by simp [fromNative]
+  | .uuid i ver, h => by simp only [Plain] at h; subst h; simp [fromNative]
+  | .datetime _, _ => by simp [fromNative]
+  | .date _, _ => by simp [fromNative]
+  | .list xs, h => by
+    simp only [Plain] at h
+    obtain ⟨es, he⟩ := fromNativeList_total xs h
+    exact ⟨_, (fromNative_list_ok _ _).2 ⟨es, he, rfl⟩⟩
+  | .dict kvs, h => by
+    simp only [Plain] at h
+    obtain ⟨fs, hf⟩ := fromNativeKVs_total kvs h
+    exact ⟨_, (fromNative_dict_ok _ _).2 ⟨plainKV_noEll kvs h, fs, hf, rfl⟩⟩
+  | .ellipsis, h => by simp [Plain] at h
+  | .other _, h => by simp [Plain] at h
+theorem fromNativeList_total : ∀ (xs : List PyVal), PlainL xs → ∃ es, fromNativeList xs = .ok es
+  | [], _ => ⟨[], by simp [fromNativeList]⟩
+  | x :: xs, h => by
+    simp only [PlainL] at h
+    obtain ⟨a, ha⟩ := fromNative_total' x h.1
+    obtain ⟨b, hb⟩ := fromNativeList_total xs h.2
+    exact ⟨_, (fromNativeList_cons_ok _ _ _).2 ⟨a, b, ha, hb, rfl⟩⟩
+theorem fromNativeKVs_total : ∀ (r : List (PyKey × PyVal)), PlainKV r → ∃ fs, fromNativeKVs r = .ok fs
+  | [], _ => ⟨[], by simp [fromNativeKVs]⟩
+  | (k, v) :: r, h => by
+    simp only [PlainKV] at h
+    obtain ⟨a, ha⟩ := fromNative_total' v h.2.1
+    obtain ⟨b, hb⟩ := fromNativeKVs_total r h.2.2
+    exact ⟨_, (fromNativeKVs_cons_ok _ _ _ _).2 ⟨a, b, ha, hb, rfl⟩⟩
+end
+
+/-- every plain value is converted -/
+theorem fromNative_total (v : PyVal) (h : Plain v) : ∃ s, fromNative v = .ok s :=
+  fromNative_total' v h
+
+
+theorem noEll_of_any : ∀ (kvs : List (PyKey × PyVal)),
+    kvs.any (fun kv => kv.1 == PyKey.ellipsis) = false → ∀ kv ∈ kvs, kv.1 ≠ PyKey.ellipsis := by
+  intro kvs h kv hkv
+  simp only [List.any_eq_false] at h
+  simpa using h kv hkv
+
+mutual
+theorem fromNative_ok_plain : ∀ (v : PyVal) (s : Schema), fromNative v = .ok s → Plain v
+  | .none, _, _ => by simp [Plain]
+  | .bool _, _, _ => by simp [Plain]
+  | .int _, _, _ => by simp [Plain]
+  | .float _, _, _ => by simp [Plain]
+  | .str _, _, _ => by simp [Plain]
+  | .bytes _, _, _ => by simp [Plain]
+  | .uuid i ver, s, h => by
+    simp only [Plain]
+    by_cases hv : ver = 4
+    · exact hv
+    · simp [fromNative, hv] at h
+  | .datetime _, _, _ => by simp [Plain]
+  | .date _, _, _ => by simp [Plain]
+  | .list xs, s, h => by
+    obtain ⟨es, he, _⟩ := (fromNative_list_ok _ _).1 h
+    simp only [Plain]
+    exact fromNativeList_ok_plain xs es he
+  | .dict kvs, s, h => by
+    obtain ⟨hne, fs, hf, _⟩ := (fromNative_dict_ok _ _).1 h
+    simp only [Plain]
+    exact fromNativeKVs_ok_plain kvs fs hf (noEll_of_any kvs hne)
+  | .ellipsis, _, h => by simp [fromNative] at h
+  | .other _, _, h => by simp [fromNative] at h
+theorem fromNativeList_ok_plain : ∀ (xs : List PyVal) (es : List Schema),
+    fromNativeList xs = .ok es → PlainL xs
+  | [], _, _ => by simp [PlainL]
+  | x :: xs, es, h => by
+    obtain ⟨a, b, ha, hb, _⟩ := (fromNativeList_cons_ok _ _ _).1 h
+    simp only [PlainL]
+    exact ⟨fromNative_ok_plain x a ha, fromNativeList_ok_plain xs b hb⟩
+theorem fromNativeKVs_ok_plain : ∀ (r : List (PyKey × PyVal)) (fs : List (PyKey × Bool × Schema)),
+    fromNativeKVs r = .ok fs → (∀ kv ∈ r, kv.1 ≠ PyKey.ellipsis) → PlainKV r
+  | [], _, _, _ => by simp [PlainKV]
+  | (k, v) :: r, fs, h, hne => by
+    obtain ⟨a, b, ha, hb, _⟩ := (fromNativeKVs_cons_ok _ _ _ _).1 h
+    simp only [PlainKV]
+    exact ⟨hne (k, v) (by simp), fromNative_ok_plain v a ha,
+      fromNativeKVs_ok_plain r b hb (fun kv hkv => hne kv (List.mem_cons_of_mem _ hkv))⟩
+end
+
+theorem fromNativeList_cons_err (x : PyVal) (xs : List PyVal) (e : PyExc)
+    (h : fromNativeList (x :: xs) = .error e) :
+    fromNative x = .error e ∨ fromNativeList xs = .error e := by
+  simp only [fromNativeList, bind, Except.bind, pure, Except.pure] at h
+  cases hx : fromNative x with
+  | error e' => rw [hx] at h; simp at h; exact Or.inl (by rw [h])
+  | ok a =>
+    rw [hx] at h
+    cases hxs : fromNativeList xs with
+    | error e' => rw [hxs] at h; simp at h; exact Or.inr (by rw [h])
+    | ok b => rw [hxs] at h; simp at h
+
+theorem fromNativeKVs_cons_err (k : PyKey) (v : PyVal) (r : List (PyKey × PyVal)) (e : PyExc)
+    (h : fromNativeKVs ((k, v) :: r) = .error e) :
+    fromNative v = .error e ∨ fromNativeKVs r = .error e := by
+  simp only [fromNativeKVs, bind, Except.bind, pure, Except.pure] at h
+  cases hx : fromNative v with
+  | error e' => rw [hx] at h; simp at h; exact Or.inl (by rw [h])
+  | ok a =>
+    rw [hx] at h
+    cases hxs : fromNativeKVs r with
+    | error e' => rw [hxs] at h; simp at h; exact Or.inr (by rw [h])
+    | ok b => rw [hxs] at h; simp at h
+
+mutual
+theorem fromNative_error_kind' : ∀ (v : PyVal) (e : PyExc), fromNative v = .error e → e = .valueError
+  | .none, _, h => by simp [fromNative] at h
+  | .bool _, _, h => by simp [fromNative] at h
+  | .int _, _, h => by simp [fromNative] at h
+  | .float _, _, h => by simp [fromNative] at h
+  | .str _, _, h => by simp [fromNative] at h
+  | .bytes _, _, h => by simp [fromNative] at h
+  | .uuid i ver, e, h => by
+    simp only [fromNative] at h
+    split at h
+    · simp at h
+    · simpa using h.symm
+  | .datetime _, _, h => by simp [fromNative] at h
+  | .date _, _, h => by simp [fromNative] at h
+  | .list xs, e, h => by
+    simp only [fromNative, bind, Except.bind, pure, Except.pure] at h
+    cases hxs : fromNativeList xs with
+    | error e' =>
+      rw [hxs] at h
+      simp at h
+      subst h
+      exact fromNativeList_error_kind xs e' hxs
+    | ok b => rw [hxs] at h; simp at h
+  | .dict kvs, e, h => by
+    simp only [fromNative, bind, Except.bind, pure, Except.pure] at h
+    split at h
+    · simpa using h.symm
+    · cases hxs : fromNativeKVs kvs with
+      | error e' =>
+        rw [hxs] at h
+        simp at h
+        subst h
+        exact fromNativeKVs_error_kind kvs e' hxs
+      | ok b => rw [hxs] at h; simp at h
+  | .ellipsis, _, h => by simpa [fromNative] using h.symm
+  | .other _, _, h => by simpa [fromNative] using h.symm
+theorem fromNativeList_error_kind : ∀ (xs : List PyVal) (e : PyExc),
+    fromNativeList xs = .error e → e = .valueError
+  | [], _, h => by simp [fromNativeList] at h
+  | x :: xs, e, h => by
+    rcases fromNativeList_cons_err x xs e h with h1 | h2
+    · exact fromNative_error_kind' x e h1
+    · exact fromNativeList_error_kind xs e h2
+theorem fromNativeKVs_error_kind : ∀ (r : List (PyKey × PyVal)) (e : PyExc),
+    fromNativeKVs r = .error e → e = .valueError
+  | [], _, h => by simp [fromNativeKVs] at h
+  | (k, v) :: r, e, h => by
+    rcases fromNativeKVs_cons_err k v r e h with h1 | h2
+    · exact fromNative_error_kind' v e h1
+    · exact fromNativeKVs_error_kind r e h2
+end
+
+theorem fromNative_error_kind (v : PyVal) (e : PyExc) (h : fromNative v = .error e) : e = .valueError :=
+  fromNative_error_kind' v e h
+
+/-- **refusal.** any other kind of value is refused with ValueError (and only with ValueError) -/
+theorem fromNative_refuses (v : PyVal) (h : ¬ Plain v) : fromNative v = .error .valueError := by
+  cases hv : fromNative v with
+  | ok s => exact absurd (fromNative_ok_plain v s hv) h
+  | error e => rw [fromNative_error_kind v e hv]
+
+
+/-! ### accepts -/
+
+theorem lookupKey_of_nodup : ∀ (kvs : List (PyKey × PyVal)), (kvs.map (·.1)).Nodup →
+    ∀ kv ∈ kvs, lookupKey kv.1 kvs = some kv.2
+  | [], _, kv, h => by simp at h
+  | (k, v) :: r, hn, kv, hkv => by
+    simp only [List.map_cons, List.nodup_cons] at hn
+    rcases List.mem_cons.1 hkv with rfl | hr
+    · simp [lookupKey]
+    · have hne : kv.1 ≠ k := by
+        intro he
+        exact hn.1 (he ▸ List.mem_map_of_mem hr)
+      simp only [lookupKey, hne, if_false]
+      exact lookupKey_of_nodup r hn.2 kv hr
+
+theorem fromNativeList_length : ∀ (xs : List PyVal) (es : List Schema),
+    fromNativeList xs = .ok es → es.length = xs.length
+  | [], es, h => by simp [fromNativeList] at h; subst h; rfl
+  | x :: xs, es, h => by
+    obtain ⟨a, b, _, hb, rfl⟩ := (fromNativeList_cons_ok _ _ _).1 h
+    simp [fromNativeList_length xs b hb]
+
+theorem fromNativeKVs_hasField : ∀ (r : List (PyKey × PyVal)) (fs : List (PyKey × Bool × Schema)),
+    fromNativeKVs r = .ok fs → ∀ kv ∈ r, hasField kv.1 fs = true
+  | [], _, _, kv, h => by simp at h
+  | (k, v) :: r, fs, h, kv, hkv => by
+    obtain ⟨a, b, _, hb, rfl⟩ := (fromNativeKVs_cons_ok _ _ _ _).1 h
+    rcases List.mem_cons.1 hkv with rfl | hr
+    · simp [hasField]
+    · have := fromNativeKVs_hasField r b hb kv hr
+      simp only [hasField] at this ⊢
+      simp [this]
+
+theorem isclose_self (env : Env) (f : PyFloat) (h : f ≠ .nan) : isclose env f f = true := by
+  cases f <;> simp [isclose, PyFloat.eq] at h ⊢
+
+mutual
+theorem fromNative_conforms (env : Env) : ∀ (v : PyVal) (s : Schema),
+    fromNative v = .ok s → NoNaN v → DistinctKeys v → Conforms env s v
+  | .none, s, h, _, _ => by simp [fromNative] at h; subst h; simp [Conforms, ConformsScalar]
+  | .bool _, s, h, _, _ => by simp [fromNative] at h; subst h; simp [Conforms, ConformsScalar]
+  | .int _, s, h, _, _ => by simp [fromNative] at h; subst h; simp [Conforms, ConformsScalar, asInt]
+  | .float f, s, h, hn, _ => by
+    simp [fromNative] at h; subst h
+    have hf : f ≠ .nan := by rintro rfl; simp [NoNaN] at hn
+    simp [Conforms, ConformsScalar, floatValueOk, isclose_self env f hf]
+  | .str _, s, h, _, _ => by
+    simp [fromNative] at h; subst h; simp [Conforms, ConformsScalar, LenOK]
+  | .bytes _, s, h, _, _ => by simp [fromNative] at h; subst h; simp [Conforms, ConformsScalar]
+  | .uuid i ver, s, h, _, _ => by
+    have hv : ver = 4 := fromNative_ok_plain _ _ h
+    subst hv
+    simp [fromNative] at h; subst h; simp [Conforms, ConformsScalar]
+  | .datetime _, s, h, _, _ => by simp [fromNative] at h; subst h; simp [Conforms, ConformsScalar]
+  | .date _, s, h, _, _ => by simp [fromNative] at h; subst h; simp [Conforms, ConformsScalar]
+  | .list xs, s, h, hn, hd => by
+    obtain ⟨es, he, rfl⟩ := (fromNative_list_ok _ _).1 h
+    simp only [NoNaN] at hn
+    simp only [DistinctKeys] at hd
+    have hp := fromNativeList_conforms env xs es he hn hd
+    have hl := fromNativeList_length xs es he
+    simp [Conforms, LenOK, hp, hl]
+  | .dict kvs, s, h, hn, hd => by
+    obtain ⟨_, fs, hf, rfl⟩ := (fromNative_dict_ok _ _).1 h
+    simp only [NoNaN] at hn
+    simp only [DistinctKeys] at hd
+    have hF := fromNativeKVs_conforms env kvs fs kvs hf hn hd.2 (lookupKey_of_nodup kvs hd.1)
+    simp only [Conforms]
+    exact ⟨kvs, rfl, hF, fun _ => fromNativeKVs_hasField kvs fs hf⟩
+  | .ellipsis, _, h, _, _ => by simp [fromNative] at h
+  | .other _, _, h, _, _ => by simp [fromNative] at h
+theorem fromNativeList_conforms (env : Env) : ∀ (xs : List PyVal) (es : List Schema),
+    fromNativeList xs = .ok es → NoNaNL xs → DistinctKeysL xs → PrefixC env es xs
+  | [], es, h, _, _ => by simp [fromNativeList] at h; subst h; simp [PrefixC]
+  | x :: xs, es, h, hn, hd => by
+    obtain ⟨a, b, ha, hb, rfl⟩ := (fromNativeList_cons_ok _ _ _).1 h
+    simp only [NoNaNL] at hn
+    simp only [DistinctKeysL] at hd
+    simp only [PrefixC]
+    exact ⟨fromNative_conforms env x a ha hn.1 hd.1, fromNativeList_conforms env xs b hb hn.2 hd.2⟩
+theorem fromNativeKVs_conforms (env : Env) : ∀ (r : List (PyKey × PyVal)) (fs : List (PyKey × Bool × Schema))
+    (kvs : List (PyKey × PyVal)),
+    fromNativeKVs r = .ok fs → NoNaNKV r → DistinctKeysKV r →
+    (∀ kv ∈ r, lookupKey kv.1 kvs = some kv.2) → FieldsC env fs kvs
+  | [], fs, _, h, _, _, _ => by simp [fromNativeKVs] at h; subst h; simp [FieldsC]
+  | (k, v) :: r, fs, kvs, h, hn, hd, hl => by
+    obtain ⟨a, b, ha, hb, rfl⟩ := (fromNativeKVs_cons_ok _ _ _ _).1 h
+    simp only [NoNaNKV] at hn
+    simp only [DistinctKeysKV] at hd
+    simp only [FieldsC]
+    have h0 : lookupKey k kvs = some v := hl (k, v) (by simp)
+    rw [h0]
+    exact ⟨fromNative_conforms env v a ha hn.1 hd.1,
+      fromNativeKVs_conforms env r b kvs hb hn.2 hd.2 (fun kv hkv => hl kv (List.mem_cons_of_mem _ hkv))⟩
+end
+
+/-- **accepts.** `from_native(v)` accepts `v` (no NaN inside: K6) -/
+theorem fromNative_accepts (env : Env) (v : PyVal) (s : Schema) (p : Path)
+    (hs : fromNative v = .ok s) (hn : NoNaN v) (hd : DistinctKeys v) :
+    validateP env false s v p = [] :=
+  (validateP_nil_iff env s v p).2 (fromNative_conforms env v s hs hn hd)
+
+
+/-! ### generates -/
+
+mutual
+theorem fromNative_gen (env : Env) : ∀ (v : PyVal) (s : Schema) (st : GS),
+    fromNative v = .ok s → gen env s st = .ok (v, st)
+  | .none, s, st, h => by simp [fromNative] at h; subst h; simp [gen, genScalar, pure, G.pure]
+  | .bool _, s, st, h => by simp [fromNative] at h; subst h; simp [gen, genScalar, pure, G.pure]
+  | .int _, s, st, h => by simp [fromNative] at h; subst h; simp [gen, genScalar, pure, G.pure]
+  | .float _, s, st, h => by simp [fromNative] at h; subst h; simp [gen, genScalar, pure, G.pure]
+  | .str _, s, st, h => by simp [fromNative] at h; subst h; simp [gen, genScalar, pure, G.pure]
+  | .bytes _, s, st, h => by simp [fromNative] at h; subst h; simp [gen, genScalar, pure, G.pure]
+  | .uuid i ver, s, st, h => by
+    have hv : ver = 4 := fromNative_ok_plain _ _ h
+    subst hv
+    simp [fromNative] at h; subst h; simp [gen, genScalar, pure, G.pure]
+  | .datetime _, s, st, h => by simp [fromNative] at h; subst h; simp [gen, genScalar, pure, G.pure]
+  | .date _, s, st, h => by simp [fromNative] at h; subst h; simp [gen, genScalar, pure, G.pure]
+  | .list xs, s, st, h => by
+    obtain ⟨es, he, rfl⟩ := (fromNative_list_ok _ _).1 h
+    simp [gen, bind, G.bind, pure, G.pure, fromNativeList_gen env xs es st he]
+  | .dict kvs, s, st, h => by
+    obtain ⟨_, fs, hf, rfl⟩ := (fromNative_dict_ok _ _).1 h
+    simp [gen, bind, G.bind, pure, G.pure, fromNativeKVs_gen env kvs fs st hf]
+  | .ellipsis, _, _, h => by simp [fromNative] at h
+  | .other _, _, _, h => by simp [fromNative] at h
+theorem fromNativeList_gen (env : Env) : ∀ (xs : List PyVal) (es : List Schema) (st : GS),
+    fromNativeList xs = .ok es → genList env es st = .ok (xs, st)
+  | [], es, st, h => by simp [fromNativeList] at h; subst h; simp [genList, pure, G.pure]
+  | x :: xs, es, st, h => by
+    obtain ⟨a, b, ha, hb, rfl⟩ := (fromNativeList_cons_ok _ _ _).1 h
+    simp [genList, bind, G.bind, pure, G.pure, fromNative_gen env x a st ha,
+      fromNativeList_gen env xs b st hb]
+theorem fromNativeKVs_gen (env : Env) : ∀ (r : List (PyKey × PyVal)) (fs : List (PyKey × Bool × Schema)) (st : GS),
+    fromNativeKVs r = .ok fs → genFields env fs st = .ok (r, st)
+  | [], fs, st, h => by simp [fromNativeKVs] at h; subst h; simp [genFields, pure, G.pure]
+  | (k, v) :: r, fs, st, h => by
+    obtain ⟨a, b, ha, hb, rfl⟩ := (fromNativeKVs_cons_ok _ _ _ _).1 h
+    simp [genFields, bind, G.bind, pure, G.pure, fromNative_gen env v a st ha,
+      fromNativeKVs_gen env r b st hb]
+end
+
+/-- **generates.** `from_native(v)` generates exactly `v`, from any random source, consuming nothing -/
+theorem fromNative_generates (env : Env) (v : PyVal) (s : Schema) (st : GS)
+    (hs : fromNative v = .ok s) : gen env s st = .ok (v, st) :=
+  fromNative_gen env v s st hs
+
+
+mutual
+/-- "the same value": structural equality up to Python's identification of True/False with 1/0
+    (an int schema accepts the bool that equals it) and the float tolerance -/
+def Same (env : Env) : PyVal → PyVal → Prop
+  | .none, w => w = .none
+  | .bool b, w => w = .bool b
+  | .int n, w => asInt w = some n
+  | .float f, w => ∃ g, w = .float g ∧ isclose env g f = true
+  | .str s, w => w = .str s
+  | .bytes b, w => w = .bytes b
+  | .uuid i _, w => w = .uuid i 4
+  | .datetime i, w => w = .datetime i
+  | .date i, w => w = .date i
+  | .list xs, w => ∃ ys, w = .list ys ∧ SameL env xs ys
+  | .dict kvs, w => ∃ kws, w = .dict kws ∧ SameKV env kvs kws ∧ (∀ kw ∈ kws, ∃ kv ∈ kvs, kv.1 = kw.1)
+  | .ellipsis, _ => False
+  | .other _, _ => False
+def SameL (env : Env) : List PyVal → List PyVal → Prop
+  | [], ys => ys = []
+  | x :: xs, ys => ∃ y ys', ys = y :: ys' ∧ Same env x y ∧ SameL env xs ys'
+/-- every key of the original is present in the other dict with the same value -/
+def SameKV (env : Env) : List (PyKey × PyVal) → List (PyKey × PyVal) → Prop
+  | [], _ => True
+  | (k, v) :: r, kws => (∃ w, lookupKey k kws = some w ∧ Same env v w) ∧ SameKV env r kws
+end
+
+theorem fromNativeKVs_hasField_inv : ∀ (r : List (PyKey × PyVal)) (fs : List (PyKey × Bool × Schema)) (k : PyKey),
+    fromNativeKVs r = .ok fs → hasField k fs = true → ∃ kv ∈ r, kv.1 = k
+  | [], fs, k, h, hk => by simp [fromNativeKVs] at h; subst h; simp [hasField] at hk
+  | (k', v) :: r, fs, k, h, hk => by
+    obtain ⟨a, b, _, hb, rfl⟩ := (fromNativeKVs_cons_ok _ _ _ _).1 h
+    simp only [hasField, List.any_cons, Bool.or_eq_true, beq_iff_eq] at hk
+    rcases hk with rfl | hk
+    · exact ⟨(k', v), by simp, rfl⟩
+    · obtain ⟨kv, hkv, he⟩ := fromNativeKVs_hasField_inv r b k hb (by simpa [hasField] using hk)
+      exact ⟨kv, List.mem_cons_of_mem _ hkv, he⟩
+
+mutual
+theorem fromNative_same (env : Env) : ∀ (v w : PyVal) (s : Schema),
+    fromNative v = .ok s → Conforms env s w → Same env v w
+  | .none, w, s, h, hc => by
+    simp [fromNative] at h; subst h; simpa [Conforms, ConformsScalar, Same] using hc
+  | .bool _, w, s, h, hc => by
+    simp [fromNative] at h; subst h; simpa [Conforms, ConformsScalar, Same] using hc
+  | .int _, w, s, h, hc => by
+    simp [fromNative] at h; subst h; simpa [Conforms, ConformsScalar, Same] using hc
+  | .float _, w, s, h, hc => by
+    simp [fromNative] at h; subst h; simpa [Conforms, ConformsScalar, Same, floatValueOk] using hc
+  | .str _, w, s, h, hc => by
+    simp [fromNative] at h; subst h
+    simp only [Conforms, ConformsScalar] at hc
+    obtain ⟨t, rfl, ht, _⟩ := hc
+    simp [Same, ht _ rfl]
+  | .bytes _, w, s, h, hc => by
+    simp [fromNative] at h; subst h; simpa [Conforms, ConformsScalar, Same] using hc
+  | .uuid i ver, w, s, h, hc => by
+    have hv : ver = 4 := fromNative_ok_plain _ _ h
+    subst hv
+    simp [fromNative] at h; subst h; simpa [Conforms, ConformsScalar, Same] using hc
+  | .datetime _, w, s, h, hc => by
+    simp [fromNative] at h; subst h; simpa [Conforms, ConformsScalar, Same] using hc
+  | .date _, w, s, h, hc => by
+    simp [fromNative] at h; subst h; simpa [Conforms, ConformsScalar, Same, eq_comm] using hc
+  | .list xs, w, s, h, hc => by
+    obtain ⟨es, he, rfl⟩ := (fromNative_list_ok _ _).1 h
+    simp only [Conforms] at hc
+    obtain ⟨ys, rfl, _, hc⟩ := hc
+    simp at hc
+    simp only [Same]
+    exact ⟨ys, rfl, fromNativeList_same env xs ys es he hc.1 hc.2⟩
+  | .dict kvs, w, s, h, hc => by
+    obtain ⟨_, fs, hf, rfl⟩ := (fromNative_dict_ok _ _).1 h
+    simp only [Conforms] at hc
+    obtain ⟨kws, rfl, hF, hk⟩ := hc
+    simp only [Same]
+    refine ⟨kws, rfl, fromNativeKVs_same env kvs kws fs hf hF, ?_⟩
+    intro kw hkw
+    exact fromNativeKVs_hasField_inv kvs fs kw.1 hf (hk trivial kw hkw)
+  | .ellipsis, _, _, h, _ => by simp [fromNative] at h
+  | .other _, _, _, h, _ => by simp [fromNative] at h
+theorem fromNativeList_same (env : Env) : ∀ (xs ys : List PyVal) (es : List Schema),
+    fromNativeList xs = .ok es → ys.length = es.length → PrefixC env es ys → SameL env xs ys
+  | [], ys, es, h, hl, _ => by
+    simp [fromNativeList] at h; subst h
+    simpa [SameL] using hl
+  | x :: xs, ys, es, h, hl, hp => by
+    obtain ⟨a, b, ha, hb, rfl⟩ := (fromNativeList_cons_ok _ _ _).1 h
+    cases ys with
+    | nil => simp at hl
+    | cons y ys' =>
+      simp only [PrefixC] at hp
+      simp only [SameL]
+      exact ⟨y, ys', rfl, fromNative_same env x y a ha hp.1,
+        fromNativeList_same env xs ys' b hb (by simpa using hl) hp.2⟩
+theorem fromNativeKVs_same (env : Env) : ∀ (r kws : List (PyKey × PyVal)) (fs : List (PyKey × Bool × Schema)),
+    fromNativeKVs r = .ok fs → FieldsC env fs kws → SameKV env r kws
+  | [], _, _, _, _ => by simp [SameKV]
+  | (k, v) :: r, kws, fs, h, hF => by
+    obtain ⟨a, b, ha, hb, rfl⟩ := (fromNativeKVs_cons_ok _ _ _ _).1 h
+    simp only [FieldsC] at hF
+    simp only [SameKV]
+    refine ⟨?_, fromNativeKVs_same env r kws b hb hF.2⟩
+    have h1 := hF.1
+    cases hl : lookupKey k kws with
+    | none => rw [hl] at h1; simp at h1
+    | some x => rw [hl] at h1; exact ⟨x, rfl, fromNative_same env v x a ha h1⟩
+end
+
+/-- **exact.** whatever `from_native(v)` accepts is the same value as `v`: same kind, content,
+    length, key set and nested members -/
+theorem fromNative_exact (env : Env) (v w : PyVal) (s : Schema)
+    (hs : fromNative v = .ok s) (hd : DistinctKeys v) (hc : Conforms env s w) : Same env v w := by
+  -- `hd` is not needed: with duplicate keys the field list is either unsatisfiable or still exact
+  have _ := hd
+  exact fromNative_same env v w s hs hc
+
+/-- non-vacuity -/
+example : Plain (.dict [(.str [97], .list [.int 1, .float (.fin 2)]), (.none, .uuid 0 4)]) := by
+  simp [Plain, PlainKV, PlainL]
+
+end D42
